@@ -4,7 +4,10 @@ import (
 	"fmt"
 	"math"
 	"math/big"
+	"runtime"
 	"sort"
+	"sync"
+	"sync/atomic"
 	"time"
 
 	"github.com/brocaar/lorawan"
@@ -231,6 +234,41 @@ func runC20(c *core.Ctx) {
 	case 3:
 		c20EIRP(c, 36)
 		c20GPSDuration(c, 315964800*time.Second)
+	}
+	// conversions of instants from different leap-second eras at the same time (several goroutines): each
+	// result is judged by the model exactly as in the sequential monitors
+	if c.Whole("gps-concurrent") || c.Batch%5 == 2 {
+		var wg sync.WaitGroup
+		var bad atomic.Value
+		for g := 0; g < 6; g++ {
+			wg.Add(1)
+			go func(rr *core.RNG) {
+				defer wg.Done()
+				for i := 0; i < 4000; i++ {
+					l := leapDays[rr.Intn(len(leapDays))]
+					t := l.Add(time.Duration(rr.Intn(200*86400)-100*86400) * time.Second).Add(time.Duration(rr.Intn(1e9)))
+					gt := gps.Time(t)
+					got := gt.TimeSinceGPSEpoch()
+					if want := gpsModelForward(t); got != want {
+						bad.Store(fmt.Sprintf("TimeSinceGPSEpoch(%s) = %v while other goroutines convert instants of other eras; leap table says %v", t.Format(time.RFC3339Nano), got, want))
+						return
+					}
+					if back := gps.NewTimeFromTimeSinceGPSEpoch(got); !time.Time(back).Equal(t) {
+						bad.Store(fmt.Sprintf("New(TimeSince(%s)) = %s under concurrent use", t.Format(time.RFC3339Nano), time.Time(back).Format(time.RFC3339Nano)))
+						return
+					}
+					if i%64 == 0 {
+						runtime.Gosched()
+					}
+				}
+			}(c.RNG("gps-concurrent", int64(c.Batch*8+g)))
+		}
+		wg.Wait()
+		c.Eval(6 * 4000 * 2)
+		if m := bad.Load(); m != nil {
+			c.Violate("C20|gps|concurrent-use", "%s", m.(string))
+		}
+		c.Shape("gps-concurrent", runtime.GOMAXPROCS(0))
 	}
 	// ------------------------------------------------ GPS
 	var offs []time.Duration
